@@ -280,6 +280,11 @@ class Machine:
                 return
             seen_rt: dict = {}
             _walk(x, seen_rt)
+            if len({d.id for d in seen_rt.values()}) < len(seen_rt):
+                # two different (given-up) objects of one id in one payload: the format identifies nodes
+                # by id, such a tree has no faithful reading (only reachable with colliding 1-2 byte digests)
+                self.lab.tag("roundtrip-skipped-ambiguous-ids")
+                return
             if any(type(d).__name__ == "SameName" for d in seen_rt.values()):
                 return  # a type tag names a class by its simple name: two classes of one name cannot both be read back
             fmt = o[2] % 3
